@@ -243,4 +243,8 @@ func init() {
 	register("C09", newC09)
 	register("C10", newC10)
 	register("C01", newC01)
+	register("C13", newC13)
+	register("C14", newC14)
+	register("C18", newC18)
+	register("C19", newC19)
 }
